@@ -1,6 +1,7 @@
 import CashewsVerif.Lemmas.MemStep
 import CashewsVerif.Lemmas.Sweep
 import CashewsVerif.Lemmas.TtlFacade
+import CashewsVerif.Lemmas.Fine
 /-
 C01 — the in-memory store is a TTL key-value map for every command history.
 Property theorems only; helper lemmas live in `Lemmas/`.
@@ -268,6 +269,85 @@ example : SpellsAll [.set 0 (.tok 1) (some (.delta (Ttl.TDelta.ticks ⟨1, 90, 0
   refine ⟨.cons (.set 0 _ _ (.given (.delta ⟨1, 90, 0⟩))) (.cons (.other _) (.cons (.expire 0 (.segments [(1, .d), (30, .s)]))
     (.cons (.other _) .nil))), ?_⟩
   unfold HistWithin; decide
+
+/-! ### Clock resolution and value kinds
+
+Every theorem above is about ticks, whatever a tick is worth: nothing in `Mem` or `TtlMap` looks at the size of a
+tick except the TTL query, which answers whole seconds.  The two theorems below remove that exception and say that
+no kind of value is treated specially by the multi-key read. -/
+
+/-- **The TTL query at any clock resolution.**  In every reachable state, for a clock of `R` ticks per second
+(`R = 8`: the ordinary histories; `R = 2^20`: the histories with TTLs that are not a whole number of milliseconds),
+`get_expire` of the in-memory model - `round((deadline - now) / R)`, half to even, `-2` for an absent or expired
+key, `-1` without a deadline - equals the ideal map's; and for `R = 8` it is the `getExpire` of `mem_refines_ttlmap`.
+Together with `mem_refines_ttlmap` (all other results do not depend on `R`): a deadline is `written_at + ttl` to the
+tick - not to the millisecond -, at every resolution. -/
+theorem ttl_query_at_any_resolution (cap : Nat) (K : List Key) (hK : K.length ≤ cap)
+    (ops : List Op) (hops : HistWithin K ops) (R : Nat) (k : Key) :
+    ((Mem.init cap).run ops).1.getExpireR R k = (TtlMap.init.run ops).1.getExpireR R k ∧
+    ((Mem.init cap).run ops).1.getExpireR 8 k = ((Mem.init cap).run ops).1.getExpire k ∧
+    (TtlMap.init.run ops).1.getExpireR 8 k = (TtlMap.init.run ops).1.getExpire k :=
+  ⟨Mem.good_getExpireR (reachable_good cap K hK ops hops) R k, Mem.getExpireR_eight _ k, TtlMap.getExpireR_eight _ k⟩
+
+/-- **A key lives to the very tick of its deadline, however short the TTL.**  In every reachable state, after
+`set k v` with a TTL of `ttl + 1` ticks, a read made `dt ≤ ttl` ticks later (nothing else in between) returns `v` -
+also for a TTL of one tick, also one tick before the deadline - and a read made exactly `ttl + 1` ticks later
+returns nothing. -/
+theorem alive_until_the_last_tick (cap : Nat) (K : List Key) (hK : K.length ≤ cap)
+    (ops : List Op) (hops : HistWithin K ops) (k : Key) (hk : k ∈ K) (v : Val) (ttl dt : Nat) (hdt : dt ≤ ttl) :
+    let s1 := (((Mem.init cap).run ops).1.step (.set k v (some (ttl + 1)) .always)).1
+    ((s1.step (.adv dt)).1.step (.get k)).2 = .val (some v) ∧
+    ((s1.step (.adv (ttl + 1))).1.step (.get k)).2 = .val none := by
+  intro s1
+  have g := reachable_good cap K hK ops hops
+  have g1 := Mem.good_step g (.set k v (some (ttl + 1)) .always) (by simp [Op.keys, hk])
+  have key : ∀ d, ((s1.step (.adv d)).1.step (.get k)).2 = .val (if d ≤ ttl then some v else none) := by
+    intro d
+    have g2 := Mem.good_step g1.1 (.adv d) (by simp [Op.keys])
+    have g3 := Mem.good_step g2.1 (.get k) (by simp [Op.keys, hk])
+    rw [g3.2]
+    generalize (TtlMap.init.run ops).1 = t
+    simp only [TtlMap.step, TtlMap.write, TtlMap.find_eq, if_true, deadlineOf, Option.filter, Entry.live]
+    by_cases h : d ≤ ttl
+    · have : t.now + d < t.now + (ttl + 1) := by omega
+      simp [h, this]
+    · have : ¬ t.now + d < t.now + (ttl + 1) := by omega
+      simp [h, this]
+  exact ⟨by rw [key dt]; simp [hdt], by rw [key (ttl + 1)]; simp⟩
+
+/-- **No kind of value is hidden by the multi-key read.**  In every reachable state, after a successful write of
+*any* value `v` - an int, an opaque payload, `None`, a set (`.keys`), a list (`.nums`) - `get_many` over any
+repetition of the key answers `v` at every position. -/
+theorem get_many_returns_any_value (cap : Nat) (K : List Key) (hK : K.length ≤ cap)
+    (ops : List Op) (hops : HistWithin K ops) (k : Key) (hk : k ∈ K) (v : Val) (ttl : Option Nat) (c : Cond) (n : Nat) :
+    let s := ((Mem.init cap).run ops).1
+    (s.step (.set k v ttl c)).2 = .bool true →
+    ((s.step (.set k v ttl c)).1.step (.getMany (List.replicate n k))).2 = .vals (List.replicate n (some v)) := by
+  intro s hset
+  have hw : HistWithin K (ops ++ [.set k v ttl c]) := by
+    intro op hop k' hk'
+    rcases List.mem_append.mp hop with h | h
+    · exact hops op h k' hk'
+    · simp only [List.mem_singleton] at h; subst h; simp [Op.keys] at hk'; subst hk'; exact hk
+  have hrun : ((Mem.init cap).run (ops ++ [.set k v ttl c])).1 = (s.step (.set k v ttl c)).1 := by
+    rw [Mem.run_append_state]; rfl
+  have hpos := get_many_positional cap K hK (ops ++ [.set k v ttl c]) hw (List.replicate n k)
+    (by intro k' hk'; rw [List.eq_of_mem_replicate hk']; exact hk)
+  have hget := write_then_read cap K hK ops hops k hk v ttl c hset
+  simp only [hrun] at hpos
+  rw [hpos, List.map_replicate, hget]
+
+/-- ticks of 2^-20 s: a TTL of 1500 ticks (1.43 ms - not a whole number of milliseconds) is readable 1499 ticks
+later and gone at 1500; a TTL of one tick is readable at once; the TTL query of a key with 2^20 + 2^19 ticks
+(1.5 s) left answers 2 (half to even), with 2^19 ticks left it answers 0; a Python set (`.keys`) comes back from
+`get_many` at every position -/
+example : ((Mem.init 4).run [.set 0 (.tok 1) (some 1500) .always, .adv 1499, .get 0, .adv 1, .get 0,
+      .set 1 (.tok 2) (some 1) .nx, .get 1, .set 2 (.keys [1, 2]) none .always, .getMany [2, 0, 2]]).2 =
+    [.bool true, .unit, .val (some (.tok 1)), .unit, .val none, .bool true, .val (some (.tok 2)), .bool true,
+     .vals [some (.keys [1, 2]), none, some (.keys [1, 2])]] ∧
+    ((Mem.init 4).run [.set 0 (.tok 1) (some (2 ^ 20 + 2 ^ 19)) .always]).1.getExpireR (2 ^ 20) 0 = 2 ∧
+    ((Mem.init 4).run [.set 0 (.tok 1) (some (2 ^ 20 + 2 ^ 19)) .always, .adv (2 ^ 20)]).1.getExpireR (2 ^ 20) 0 = 0 := by
+  decide
 
 /-! ### Non-vacuity: a concrete history meets the hypotheses and exercises the interesting states -/
 
